@@ -9,6 +9,101 @@ CHECKS = {
    ref="DESIGN.md section 4, C01",
    note="Trusted: the hand-written reference grammar (self-checked against the tree printer on every run); three primaries stand for all primaries.",
    technique="exhaustive enumeration + proptest random generation, differential against a reference grammar, round trip"),
+ "C02": dict(
+   text="Translation validation by differential execution: random expression trees over every supported test/action are compiled, the emitted Scheme is read and run by an independent evaluator with a LiPE runtime model on file sets directed at every constant of the tree, and truth value, ordered outputs and stop request are compared with an evaluator of find's rules. Sampled, boundary-directed exploration.",
+   ref="DESIGN.md section 4, C02 and 3.4",
+   note="Trusted: the harness's Scheme reader/evaluator and LiPE runtime model (assumptions listed in the evidence file), the find-semantics evaluator, fnmatch implementation.",
+   technique="proptest-generated programs, differential execution against a reference evaluator (translation validation)"),
+ "C03": dict(
+   text="Totality search over ~1.5 M (quick) structured inputs per build profile: grammar-aware texts, all prefixes and single-character mutations, exhaustive short argument strings after every keyword, numeric boundaries; every stage (parse, error Display/Debug, compile, scheme, io_map) must return; run in child processes of the dev and the release harness so aborts are contained. Thorough adds libFuzzer campaigns.",
+   ref="DESIGN.md section 4, C03 and 3.7",
+   note="A hang would be reported as inconclusive (exit 2), not as a violation; nesting beyond 64 and inputs beyond 4 KiB are outside the property.",
+   technique="structured generation + mutation + exhaustive short strings, crash oracle in child processes, both build profiles"),
+ "C04": dict(
+   text="Every string-carrying construct x every string of length <= 3 (quick) / 4 (thorough) over a 17-symbol hostile alphabet, plus random longer strings: the emitted program must read as exactly two forms, have the same structure as the program for the neutralised string, carry the string as a literal decoding to exactly it, and print literal format text verbatim when executed.",
+   ref="DESIGN.md section 4, C04",
+   note="Trusted: the harness's reader for Guile string/char syntax (strict on unknown escapes). No Guile in the sandbox to cross-check.",
+   technique="exhaustive short strings + random strings, non-interference (metamorphic) oracle through an independent reader, behavioural check"),
+ "C05": dict(
+   text="Every keyword with generated members of its documented argument language (alone and embedded) must yield exactly the specification-side node; systematically corrupted non-members (junk words per language, keyword+suffix, missing argument, glued primaries, bad directive, unknown words) must be rejected as a whole.",
+   ref="DESIGN.md section 4, C05 and appendix A",
+   note="The vocabulary table keyword -> node is written from find(1) and ast.rs doc comments; glued punctuation is not asserted.",
+   technique="table-driven generation of members and corrupted non-members, oracle = specification-side vocabulary table"),
+ "C06": dict(
+   text="Metamorphic check: random expressions over the whole vocabulary are printed canonically and through a variant grammar (blank kinds, AND/OR spellings, redundant parentheses, quoting styles); every variant must give the same options and tree; blank inputs mean -true.",
+   ref="DESIGN.md section 4, C06",
+   note="Quoting is varied only on word-or-quoted-string arguments.",
+   technique="proptest generation of spelling variants, metamorphic relation"),
+ "C07": dict(
+   text="Every numeric carrier x boundary-directed and random decimal strings (leading zeros, signs, up to 40 digits): in range -> exact value in the tree and in the emitted constant (after unit multiplication), out of range -> rejected with an error value; both build profiles.",
+   ref="DESIGN.md section 4, C07",
+   note="Oracle is big-integer arithmetic on the text (u128 / digit strings).",
+   technique="boundary-value + random generation, arithmetic oracle on the text, independent reader for emitted constants, both build profiles"),
+ "C08": dict(
+   text="All 4096 octal values, all 315 clauses and all 99,225 ordered clause pairs (exhaustive), random longer lists, under the three prefixes: the tree must carry the mode of a chmod model and the executed policy must implement equal / all-bits / any-bit on directed mode sets.",
+   ref="DESIGN.md section 4, C08",
+   note="Known finding F12 ('-' clauses) is excluded by a signature predicate and reported as KNOWN-FINDING.",
+   technique="exhaustive enumeration + random lists, reference model (chmod), differential execution of the emitted policy"),
+ "C09": dict(
+   text="Every tree with at most 6 (quick) / 7 (thorough) nodes over six leaves and four operators, plus random larger ones, compiled and executed on two files: outputs must be those of '( E ) -a -print' when no action occurs anywhere and exactly the written actions otherwise; structural cross-check of the policy body.",
+   ref="DESIGN.md section 4, C09",
+   note="Uses the runtime model of C02.",
+   technique="exhaustive small-tree enumeration, behavioural oracle from find's rules"),
+ "C10": dict(
+   text="Random multisets of output actions in operator trees and chains of up to 300 destinations: mode choice against the specification-side rule, destination table = bijection with the requested (destination, terminator) pairs, every byte of the executed policy inside a frame whose tag maps to the producing action's pair.",
+   ref="DESIGN.md section 4, C10",
+   note="Known finding F13 (-print-file-fid bypasses frames) is excluded by signature and reported as KNOWN-FINDING.",
+   technique="proptest-generated programs, frame decoder + reference evaluator, invariant over the destination table"),
+ "C11": dict(
+   text="Expressions with up to 300 matcher/printer requests in random first-occurrence order: scope analysis of the read program (bound once, before use), every body reference resolved to the resource of the corresponding leaf, sharing exactly for identical requests; plus behavioural runs.",
+   ref="DESIGN.md section 4, C11",
+   note="Trusted: reader and scope analyser in the harness.",
+   technique="proptest-generated programs, static scope analysis + reference-resolution oracle, behavioural sample"),
+ "C12": dict(
+   text="Random trees over the full vocabulary with unsupported constructs at random positions and every unsupported construct in fixed dead/negated/nested positions: compile fails iff one is present and names it; compiled bodies are structurally faithful and use only runtime vocabulary.",
+   ref="DESIGN.md section 4, C12 and appendix C",
+   note="Support partition written from ast.rs.",
+   technique="proptest-generated trees, oracle = specification-side support partition + structural invariant"),
+ "C13": dict(
+   text="Random expressions with options in a leading run and at random positions inside: options model (any -depth, last -threads), expected tree with options as -true, no option node, thread count in the emitted scan call; -maxdepth/-mindepth rejected or reflected.",
+   ref="DESIGN.md section 4, C13",
+   note="An expression starting with an option word is part of the leading run by definition.",
+   technique="proptest generation, reference model of option handling"),
+ "C14": dict(
+   text="Every string up to length 5 (quick) / 6 (thorough) over a 17-symbol alphabet, every documented directive/escape alone, embedded and pairwise, random strings to length 60: the returned element list must equal the segmentation of an independent scanner, or be an error for an undocumented directive.",
+   ref="DESIGN.md section 4, C14 and appendix B",
+   note="One/two-digit octal escapes: both documented readings accepted; %{xattr:NAME} asserted for letter names only.",
+   technique="exhaustive enumeration + random generation, differential against an independent scanner"),
+ "C15": dict(
+   text="Resource-rich random expressions: parse twice, compile e1/e2/e1 in one process (programs byte-identical after normalising the embedded second, equal tables), the same texts in three fresh processes, embedded second within clock readings around the call.",
+   ref="DESIGN.md section 4, C15",
+   note="The only check that reads the wall clock, and only to bracket the compile call.",
+   technique="proptest generation, repeat/differential across calls and processes, invariant on the embedded time"),
+ "C16": dict(
+   text="For generated programs with 1..3 printers and 2..3 threads running 1..2 policy invocations, the printer procedures are executed into atomic lock/write/unlock steps and ALL interleavings are explored (BFS over program counters with blocking mutexes): no torn or mixed record, no deadlock.",
+   ref="DESIGN.md section 4, C16 and section 6",
+   note="The harness owns the schedule; not covered: fairness of the real scheduler and write atomicity inside the real runtime. Known finding F13 excluded by signature.",
+   technique="owned-schedule exhaustive interleaving exploration of generated programs (stateful PBT)"),
+ "C17": dict(
+   text="A fixed-by-seed corpus of ~500 k (quick) valid, invalid and boundary inputs is evaluated by the dev and the release build of the same harness; canonical records (parse result, program with clock normalised, table or error) must be equal input by input.",
+   ref="DESIGN.md section 4, C17",
+   note="Records compared through a 64-bit hash; full records fetched on mismatch.",
+   technique="differential between two build configurations over a generated corpus"),
+ "C18": dict(
+   text="Every argument-taking keyword with a missing argument or a word invalid from its first character, at varied positions, and unknown words: the error text must name the keyword, quote the offending word (empty when missing) and quote nothing that is not in the input.",
+   ref="DESIGN.md section 4, C18",
+   note="String-valued arguments only have the 'missing' case.",
+   technique="systematic + random generation of rejected inputs, oracle on the error text"),
+ "C19": dict(
+   text="Random trees from the public constructors (depth <= 12, incl. precedence/option nodes, deprecated default print, empty formats) and counts around 2^64/unit: action(), complex_frames(), mult(), secs(), byte_size() against an independent explicit-stack flattening and u128 arithmetic.",
+   ref="DESIGN.md section 4, C19",
+   note="byte_size() is not called when the product does not fit.",
+   technique="proptest generation, reference implementation oracle"),
+ "C20": dict(
+   text="Random compiled expressions x histories of 2..6 scheme(path)/io_map() calls with benign and hostile paths: same path -> identical text, different paths -> programs differing in exactly the device string of the scan call (decoding to the path), table unchanged.",
+   ref="DESIGN.md section 4, C20",
+   note="Trusted: the harness's reader.",
+   technique="stateful history generation (vec(op) + interpreter), S-expression diff through an independent reader"),
 }
 
 PENDING = {}
